@@ -112,6 +112,13 @@ def case(draw):
         # form (other line endings, byte-order mark, trailing blanks ...): what an editor, a checkout with autocrlf
         # or a formatter leaves behind.  A regeneration must still end with exactly the returned bytes.
         pre_files["__pregen__"] = draw(st.sampled_from(["1", "1", "same", "crlf", "crlf", "cr", "strip", "bom", "trail", "nul"]))
+    if draw(st.integers(0, 3)) == 0:
+        pre_files = dict(pre_files)
+        pre_files["__other_fs__"] = "1"
+    if entry == "manager" and draw(st.integers(0, 3)) == 0:
+        # one manager and one parsed schema object, other targets generated first (into other directories)
+        pre_files = dict(pre_files)
+        pre_files["__mgr_history__"] = ",".join(draw(st.lists(st.sampled_from(GENERATORS), min_size=1, max_size=2)))
     return s, inj, gen, entry, pre_files, missing_dir
 
 
@@ -142,8 +149,12 @@ def run_case(s: M.Schema, gen: str, entry: str, pre_files: Dict[str, str], missi
     else:
         info["oracle"] = "reference predicate"
     info["want"] = want
-    with MO.Scratch("verif-c10-") as sc:
-        out_dir = sc.path("out")
+    other_fs = MO.other_filesystem() if pre_files.get("__other_fs__") else None
+    if other_fs:
+        info["output_on_other_filesystem"] = True
+    with MO.Scratch("verif-c10-") as sc, MO.Scratch("verif-c10o-", other_fs) as sco:
+        # the output directory may live on another file system than the temporary directory (a RAM disk, a mount)
+        out_dir = sco.path("out") if other_fs else sc.path("out")
         schema_path = sc.path("src/schema.fcp")
         os.makedirs(sc.path("src"))
         if with_mods:
@@ -152,7 +163,8 @@ def run_case(s: M.Schema, gen: str, entry: str, pre_files: Dict[str, str], missi
             with open(schema_path, "w") as f:
                 f.write(text)
         pregen = pre_files.get("__pregen__")
-        pre_files = {k: v for k, v in pre_files.items() if k != "__pregen__"}
+        mgr_history = [g for g in pre_files.get("__mgr_history__", "").split(",") if g]
+        pre_files = {k: v for k, v in pre_files.items() if k not in ("__pregen__", "__mgr_history__", "__other_fs__")}
         if not missing_dir:
             os.makedirs(out_dir)
             if pregen:
@@ -214,9 +226,19 @@ def run_case(s: M.Schema, gen: str, entry: str, pre_files: Dict[str, str], missi
                 fcp2, _t2, _e2 = frontend.parse_schema_files(s, sc.path("src2"))
             else:
                 fcp2, _t2, _e2 = frontend.parse_schema(s)
+            mgr = GeneratorManager(make_general_verifier())
+            for n0, g0 in enumerate(mgr_history):
+                try:
+                    with contextlib.redirect_stdout(io.StringIO()):
+                        mgr.generate(g0, None, None, fcp2, sc.path(f"other{n0}"))
+                except BaseException:
+                    pass
+            if mgr_history:
+                info["manager_history"] = mgr_history
+                del _captured[:]
             try:
                 with contextlib.redirect_stdout(buf):
-                    r = GeneratorManager(make_general_verifier()).generate(gen, None, None, fcp2, out_dir)
+                    r = mgr.generate(gen, None, None, fcp2, out_dir)
                 result_err = bool(r.is_err())
             except BaseException as e:  # SystemExit included
                 raised = e
@@ -307,7 +329,7 @@ def run_shard(ctx: Ctx) -> None:
         cl = ["reject" if want == "fail" else "accept", "gen_" + gen, "entry_" + entry]
         if want == "fail" and would_write(gen):
             cl.append("reject_would_write")
-        if want == "fail" and pre_files:
+        if want == "fail" and any(not k.startswith("__") or k == "__pregen__" for k in pre_files):
             cl.append("reject_with_preexisting")
         coll = want == "pass" and set(pre_files) & set(info.get("returned_files", []))
         if coll:
@@ -320,6 +342,10 @@ def run_shard(ctx: Ctx) -> None:
             cl.append("regenerated_over_sibling_output")
             if info["pregenerated"] != "1":
                 cl.append("regenerated_over_lookalike_of_own_output")
+        if info.get("manager_history"):
+            cl.append("manager_reused_after_other_targets")
+        if info.get("output_on_other_filesystem"):
+            cl.append("output_on_other_filesystem")
         rec.cls(*cl)
         text = printer.to_text(s)
         if "reject_would_write" in cl or coll:
